@@ -225,6 +225,8 @@ func (s Shape) S(slices ...Slice) (retVal Shape, err error) {
 
 	retVal = s.Clone()
 
+	// singleElement: every axis selects a span of exactly one element. (*AP).S presents such a slice as a scalar.
+	singleElement := true
 	for d, size := range s {
 		var sl Slice // default is a nil Slice
 		if d <= len(slices)-1 {
@@ -235,9 +237,15 @@ func (s Shape) S(slices ...Slice) (retVal Shape, err error) {
 		if start, end, step, err = SliceDetails(sl, size); err != nil {
 			return
 		}
+		if end-start != 1 {
+			singleElement = false
+		}
 
 		if step > 0 {
-			retVal[d] = (end - start) / step
+			// same rounding as (*AP).S, which is what Slice() executes
+			if retVal[d] = (end - start) / step; (end-start)%step > 0 && d > 0 {
+				retVal[d]++
+			}
 
 			//fix
 			if retVal[d] <= 0 {
@@ -247,6 +255,10 @@ func (s Shape) S(slices ...Slice) (retVal Shape, err error) {
 			retVal[d] = (end - start)
 		}
 
+	}
+	if singleElement && opDims > 0 {
+		ReturnInts(retVal)
+		return ScalarShape(), nil
 	}
 
 	// drop any dimension with size 1, except the last dimension
